@@ -117,7 +117,78 @@ def run_family(ck, cfgs, modes, classify=None, real_every=0, timeout=1500, prop_
     return total
 
 
+def run_swap_family(ck, cfg_name, modes, timeout=600):
+    """Order-independence of explicitly requested paths (cfg with InDomain <- InDomainSwap, EmitSwap): every emitted scenario
+    <<s, t>> is replayed as given and with the two requests swapped. Calls on the requested files a parent .gitignore matches
+    (`free`: whether they are to be extracted is left open) must be the same in both orders; every other call must be what the
+    specification says."""
+    tmpf = tempfile.NamedTemporaryFile(prefix="vsw-", suffix=".ndjson", delete=False)
+    tmpf.close()
+    try:
+        r = vf.require_ok(vf.tlc("ScanWalk", cfg_name, timeout=timeout, case_file=tmpf.name), cfg_name)
+        ck.add_tlc(cfg_name, r, open(os.path.join(vf.SPEC, "cfg", cfg_name)).read().split("SPECIFICATION")[0].strip())
+        wrapped = [json.loads(l) for l in open(tmpf.name).read().split("\n") if l.strip()]
+        if not wrapped:
+            raise vf.NotAVerdict("cfg %s emitted no case" % cfg_name)
+        cases = []
+        for w in wrapped:
+            a = w["c"]
+            b = json.loads(json.dumps(a))
+            b["cfg"]["paths"] = list(reversed(a["cfg"]["paths"]))
+            cases += [a, b]
+        obs = vf.run_harness("vscan", "scanwalk", cases, args=["-a", "modes=" + ",".join(modes), "-a", "real_every=1"], timeout=1500)
+        if len(obs) != len(cases):
+            raise vf.NotAVerdict("scanwalk harness returned %d of %d swap cases" % (len(obs), len(cases)))
+        byi = {o["i"]: o for o in obs}
+        for k, w in enumerate(wrapped):
+            free = set(w["free"])
+            oa, ob = byi[2 * k], byi[2 * k + 1]
+            exp = {t: n for t, n in bag(w["c"]["expect"]["calls"]).items() if t[2] not in free}
+            for ra, rb in zip(oa["runs"], ob["runs"]):
+                mm = []
+                for nm, run in (("as given", ra), ("swapped", rb)):
+                    if run.get("panic"):
+                        mm.append("panic/timeout in Scan (%s): %s" % (nm, run["panic"][:300]))
+                if not mm:
+                    ga, gb = bag(ra["calls"]), bag(rb["calls"])
+                    fa = {t: n for t, n in ga.items() if t[2] in free}
+                    fb = {t: n for t, n in gb.items() if t[2] in free}
+                    if fa != fb:
+                        mm.append("Extract calls on the explicitly requested file(s) %s depend on the position of the request: paths %s -> %s, paths %s -> %s"
+                                  % (sorted(free), cases[2 * k]["cfg"]["paths"], sorted(fa.items()), cases[2 * k + 1]["cfg"]["paths"], sorted(fb.items())))
+                    for nm, g in (("as given", ga), ("swapped", gb)):
+                        rest = {t: n for t, n in g.items() if t[2] not in free}
+                        if rest != exp:
+                            mm.append("Extract calls (%s) on the other files: observed %s, specification says %s" % (nm, sorted(rest.items()), sorted(exp.items())))
+                if mm and len(ck.violations) < 400:
+                    ck.violation("%s [%s mode %s]: %s" % (ck.prop, cfg_name, ra["mode"], "; ".join(mm[:3])),
+                                 {"family": "scanwalk-swap", "cfg": cfg_name, "modes": [ra["mode"]], "case": w, "observed": [ra, rb], "mismatch": mm})
+        ck.count(sum(len(o["runs"]) for o in obs))
+        ck.cov["distinct_nontrivial"] += len(wrapped)
+        ck.cov["traces_validated_against_impl"] += len(cases)
+        return len(cases)
+    finally:
+        os.unlink(tmpf.name)
+
+
 def replay_one(ck, rec):
+    if rec.get("family") == "scanwalk-swap":
+        w = rec["case"]
+        b = json.loads(json.dumps(w["c"]))
+        b["cfg"]["paths"] = list(reversed(w["c"]["cfg"]["paths"]))
+        obs = vf.run_harness("vscan", "scanwalk", [w["c"], b], args=["-a", "modes=" + ",".join(rec.get("modes", ["stream/plain"])), "-a", "real_every=1"])
+        byi = {o["i"]: o for o in obs}
+        free = set(w["free"])
+        for ra, rb in zip(byi[0]["runs"], byi[1]["runs"]):
+            fa = {t: n for t, n in bag(ra["calls"]).items() if t[2] in free}
+            fb = {t: n for t, n in bag(rb["calls"]).items() if t[2] in free}
+            if fa != fb:
+                ck.violation("%s replay: calls on the requested file(s) %s depend on the position of the request: %s vs %s" % (ck.prop, sorted(free), sorted(fa.items()), sorted(fb.items())),
+                             dict(rec, observed=[ra, rb]))
+        ck.count(2)
+        ck.cov["distinct_nontrivial"] += 1
+        ck.sample(w)
+        return
     obs = vf.run_harness("vscan", "scanwalk", [rec["case"]], args=["-a", "modes=" + ",".join(rec.get("modes", ["stream/plain"]))])
     for run in obs[0]["runs"]:
         mm = compare(rec["case"], run)
